@@ -86,10 +86,10 @@ structure Cfg where
   appliedMaster : Nat := 0
   appliedTerm : Nat := 0
   state : CfgState := .unknown
-  /-- the side map.  `getCommitted` and `getApplied` of the configuration store both open the atomix
-      map named `configurations-<id>`, so "committed" and "applied" values are ONE map: `Values` and
-      `Status.Applied.Values` of a `Get` are the same set of entries. -/
+  /-- the committed side map (atomix map `configurations-<id>`): `Values` -/
   vals : VMap := []
+  /-- the applied side map (atomix map `configurations-<id>-applied`): `Status.Applied.Values` -/
+  avals : VMap := []
   /-- `Values` left inside the entry by the last `UpdateStatus` (`Update` writes `Values = nil`);
       `Get` returns this copy overlaid with the side map. -/
   shadow : VMap := []
@@ -180,9 +180,10 @@ inductive Effect
   | prop (id : PropId) (ver : Nat) (u : PropUpd)
   | createProp (p : Proposal)
   | createCfg (t : Tgt) (proposed : Nat)
-  /-- `configurationStore.store(sideMap, values)` — the values half of `Update` (with `Values`)
-      and of `UpdateStatus` (with `Status.Applied.Values`); both hit the same map -/
+  /-- `configurationStore.store(committed, values)` — the values half of `Update` -/
   | cfgVals (t : Tgt) (vals : VMap)
+  /-- `configurationStore.store(applied, values)` — the values half of `UpdateStatus` -/
+  | cfgAVals (t : Tgt) (vals : VMap)
   /-- the entry compare-and-set of `Update` (`shadow = none`: `Values` is cleared) or of
       `UpdateStatus` (`shadow = some v`: the caller's in-memory `Values` stay in the entry, its
       `Status.Applied.Values` is cleared); `ashadow` is what `Update` leaves in `Status.Applied.Values` -/
@@ -209,7 +210,7 @@ deriving DecidableEq, Repr, Inhabited
 def Cfg.view (c : Cfg) : VMap := c.vals.foldl (fun m e => VMap.set m e) c.shadow
 
 /-- `config.Status.Applied.Values` as `configurations.Get` returns it -/
-def Cfg.aview (c : Cfg) : VMap := c.vals.foldl (fun m e => VMap.set m e) c.ashadow
+def Cfg.aview (c : Cfg) : VMap := c.avals.foldl (fun m e => VMap.set m e) c.ashadow
 
 def Sys.tx? (s : Sys) (i : Nat) : Option Tx := s.txs.find? (fun t => t.index = i)
 def Sys.prop? (s : Sys) (id : PropId) : Option Proposal :=
@@ -314,6 +315,10 @@ def exec (s : Sys) : Effect → Sys × Outcome
     match s.cfg? t with
     | none => (s, .missing)
     | some c => (s.setCfg { c with vals := Config.store c.vals vals }, .ok)
+  | .cfgAVals t vals =>
+    match s.cfg? t with
+    | none => (s, .missing)
+    | some c => (s.setCfg { c with avals := Config.store c.avals vals }, .ok)
   | .cfg t ver u sh ash oc =>
     match s.cfg? t with
     | none => (s, .missing)
